@@ -364,6 +364,34 @@ static void encode(const json& v)
         const auto& dops = R.data.at(key);
         const bytes val = to_bytes(st["val"]);
         err = attempt([&] { dops.assign(p, size, ip, val); });
+        // every other API form of the same assignment (ViewEmit.tla DataForms)
+        // must leave the same bytes
+        if(st.contains("forms"))
+            for(const auto& fj : st["forms"])
+            {
+                const std::string form = fj.get<std::string>();
+                if(form == "assign_range")
+                    continue;
+                region regf(pre.size(), true);
+                regf.load(pre);
+                char* pf = regf.data() + v0;
+                ::vh::data_form() = form;
+                const std::string ef = attempt([&] { dops.assign(pf, size, ip, val); });
+                ::vh::data_form() = "assign_range";
+                json csf = {{"msg", msg}, {"key", key}, {"op", op}, {"ip", st["ip"]}, {"form", form},
+                            {"schema", g_schema}, {"aspect", "bytes"}, {"pre", hex(pre)}, {"expected", hex(post)}};
+                const std::string sigf = "encode/data/" + g_schema + ":" + key + "/form=" + form;
+                if(!ef.empty())
+                    rep.mismatch(sigf + "/trap", ef, csf);
+                else if(regf.dump() != post)
+                {
+                    csf["got"] = hex(regf.dump());
+                    rep.mismatch(sigf, "data value given through `" + form
+                                           + "` leaves bytes that differ from the SBE image", csf);
+                }
+                else
+                    rep.ok("encode-data-form");
+            }
     }
     rep.note_distinct(op + key + hex(pre));
     json cs = {{"msg", msg}, {"key", key}, {"op", op}, {"ip", st["ip"]},
